@@ -691,6 +691,80 @@ def rule_handles(ctx):
               detail={"is": "two(continuation, kind(error) as Int64, message(error))"})
 
 
+_INT = {"i8": (-2**7, 2**7 - 1), "i16": (-2**15, 2**15 - 1), "i32": (-2**31, 2**31 - 1), "i64": (-2**63, 2**63 - 1),
+        "i128": (-2**127, 2**127 - 1), "isize": (-2**63, 2**63 - 1), "u8": (0, 2**8 - 1), "u16": (0, 2**16 - 1),
+        "u32": (0, 2**32 - 1), "u64": (0, 2**64 - 1), "u128": (0, 2**128 - 1), "usize": (0, 2**64 - 1), "char": (0, 0x10FFFF)}
+_MANTISSA = {"f32": 24, "f64": 53}
+# lengths of in-memory buffers are at most isize::MAX: `len() as i64` is exact
+_LENGTHS = r"::(len|scalar_len|byte_len|count|capacity)$"
+# lossy casts that are the operation's stated behaviour: one named site each
+CAST_INVENTORY = {
+    "exit:i64->i32": "process/exit hands its Int64 to std::process::exit(i32); the operating system keeps the low byte of any status, "
+                     "so no Int64 -> status mapping is value-preserving (findings/candidates/C06.md)",
+}
+
+
+def _cast_exact(frm, to, operand):
+    if frm == to:
+        return True
+    if frm in _INT and to in _INT:
+        (a, b), (c, d) = _INT[frm], _INT[to]
+        if c <= a and b <= d and to != "char":
+            return True
+        if frm == "usize" and to in ("i64", "u64", "isize") and H.kind(operand) in ("MethodCall", "Call") and \
+                re.search(_LENGTHS, H.callee(operand) or ""):
+            return True
+        return False
+    if frm in _INT and to in _MANTISSA:
+        a, b = _INT[frm]
+        return max(-a, b) <= 2 ** _MANTISSA[to]
+    if frm == "f32" and to == "f64":
+        return True
+    if frm in _MANTISSA or to in _MANTISSA or frm in ("bool",):
+        return frm == "bool" and to in _INT
+    # a fieldless enum to its discriminant
+    return to in ("i64", "i128", "u64", "isize", "usize", "i32", "u32") and "::" in frm
+
+
+def rule_casts(ctx):
+    rule = "exact-casts"
+    ctx.rule(rule, "every `as` cast in the host operations (zydeco_dynamics::impls, ::host, ::builtin) and in Utf8String is "
+                   "value-preserving on the whole source type (widening, char -> u32, buffer length -> i64, enum -> discriminant): "
+                   "an argument is never truncated or wrapped before it is validated; lossy casts are one inventoried site each")
+    facts = ctx.facts
+    n = 0
+    seen = set()
+    for path, bd in sorted(facts.bodies().items()):
+        if not (path.startswith("zydeco_dynamics::impls::") or path.startswith("zydeco_dynamics::host::") or
+                path.startswith("zydeco_dynamics::builtin::") or path.startswith("zydeco_syntax::text::")):
+            continue
+        if "::tests::" in path or "{closure" in path:
+            continue
+        h = facts.hir(path)
+        if not h:
+            continue
+        owner = re.sub(r"^zydeco_(dynamics|syntax)::(impls|host|builtin|text)::", "", path)
+        for c in H.walk(h["body"]):
+            if H.kind(c) != "Cast":
+                continue
+            n += 1
+            frm, to = c.get("from") or "?", c.get("ty") or "?"
+            key = "%s:%s->%s" % (owner, frm.split("::")[-1], to)
+            if _cast_exact(frm, to, H.peel(c["e"])):
+                ctx.check(True, rule, key, "", None, detail={"exact": True})
+                continue
+            if key in CAST_INVENTORY:
+                seen.add(key)
+                ctx.check(True, rule, key, "", None, detail={"declared": CAST_INVENTORY[key]})
+                continue
+            ctx.violation(rule, key, "%s casts `%s as %s`: values outside the target range are silently wrapped, so an "
+                          "out-of-range argument is taken for a valid one instead of selecting the none / error continuation "
+                          "(use try_from)" % (path, frm, to), [bd["loc"][0], c.get("ln")])
+    for k in sorted(set(CAST_INVENTORY) - seen):
+        ctx.check(True, rule, k + ":gone", "", None, detail={"note": "inventoried lossy cast no longer present"})
+    ctx.floor(rule, "casts classified", n, 6)
+
+
 def run(ctx):
     try:
         roles = R.Roles(ctx, "role-tables")
@@ -700,6 +774,7 @@ def run(ctx):
     rule_dispatch(ctx, roles, info)
     rule_scalar(ctx)
     rule_panics(ctx)
+    rule_casts(ctx)
     rule_handles(ctx)
     matcher.check_matcher(ctx, "classifier-matcher")
     ctx.assume("behaviour of std on concrete strings/files (chars(), from_utf8, File::open ..) is the specification")
